@@ -38,12 +38,14 @@ def gen_case(rng, big=False):
             ops.append("y,%d,%d,%s" % (dr, dc, junk(r + dr, c + dc))); cur = (r + dr, c + dc)
         elif k < 80:
             rows = [rng.below(r) for _ in range(r)]
-            ops.append("R,%s,%s" % (".".join(map(str, rows)), junk(r, c)))
-            S = {(a, b) for a in range(r) for (x, b) in S if x == rows[a]}
+            if rng.chance(1, 6):
+                rows[rng.below(r)] = r + rng.below(3)       # out of range: the copy stops there
+            ops.append("%s,%s,%s" % (rng.choice("Rr"), ".".join(map(str, rows)), junk(r, c)))
         elif k < 85:
             cols = [rng.below(c) for _ in range(c)]
-            ops.append("C,%s,%s" % (".".join(map(str, cols)), junk(r, c)))
-            S = {(a, b) for b in range(c) for (a, y) in S if y == cols[b]}
+            if rng.chance(1, 6):
+                cols[rng.below(c)] = c + rng.below(3)
+            ops.append("%s,%s,%s" % (rng.choice("Ck"), ".".join(map(str, cols)), junk(r, c)))
         elif k < 88:
             r2, c2 = rng.rng(1, 9), rng.rng(1, 9)
             ir = [rng.below(r2) for _ in range(r)]; ic = [rng.below(c2) for _ in range(c)]
@@ -58,6 +60,10 @@ def gen_case(rng, big=False):
         else:
             ops.append("w,%d" % i)
     return "M %d %d %s" % (nr, nc, " ".join(ops))
+
+
+def parse_junk(s):
+    return set() if s in ("", "-") else {tuple(int(x) for x in p.split(".")) for p in s.split(":")}
 
 
 def oracle(req, ans):
@@ -82,12 +88,16 @@ def oracle(req, ans):
             S = set()
         elif a[0] == "y":
             nr += int(a[1]); nc += int(a[2])
-        elif a[0] == "R":
+        elif a[0] in "Rr":
+            # copy rows: row i of the result = row rows[i] of the source, up to the first out-of-range index; the plain
+            # version starts from an empty destination, the _opt version keeps what the destination held (junk)
             rows = [int(x) for x in a[1].split(".")]
-            S = {(i, b) for i in range(nr) for (x, b) in S if x == rows[i]}
-        elif a[0] == "C":
+            stop = next((i for i in range(nr) if rows[i] >= nr), nr)
+            S = {(i, b) for i in range(stop) for (x, b) in S if x == rows[i]} | (parse_junk(a[2]) if a[0] == "r" else set())
+        elif a[0] in "Ck":
             cols = [int(x) for x in a[1].split(".")]
-            S = {(r_, j) for j in range(nc) for (r_, y) in S if y == cols[j]}
+            stop = next((j for j in range(nc) if cols[j] >= nc), nc)
+            S = {(r_, j) for j in range(stop) for (r_, y) in S if y == cols[j]} | (parse_junk(a[2]) if a[0] == "k" else set())
         elif a[0] == "F":
             ir = [int(x) for x in a[1].split(".")]; ic = [int(x) for x in a[2].split(".")]
             S = {(ir[x], ic[y]) for (x, y) in S}; nr, nc = int(a[3]), int(a[4])
@@ -116,7 +126,7 @@ def oracle(req, ans):
 
 
 def run(c):
-    c.prove(["Properties_C17.v"])
+    c.prove(["Properties_C17.v"], extra_targets=["SparseChk.vo"])
     blk = re.search(r"#define\s+of_mod2sparse_block\s+(\d+)", c.snap.read("of_matrix_sparse.h"))
     if not blk or int(blk.group(1)) != 1024:
         c.proof_failed.append({"translator": "of_mod2sparse_block is %s, the model's BLOCK is 1024" % (blk.group(1) if blk else None)})
@@ -161,7 +171,7 @@ def run(c):
     c.cov["evaluations"] = nops
     c.cov["distinct_nontrivial"] = len(set(reqs))
     c.cov["traces_validated_against_impl"] = len(reqs)
-    c.cov["rule"] = ("operation sequences (5..60 ops, every tenth case up to 200 ops on up to 40x40) over allocate/insert/find/delete/clear/copy/copyrows/copycols/"
+    c.cov["rule"] = ("operation sequences (5..60 ops, every tenth case up to 200 ops on up to 40x40) over allocate/insert/find/delete/clear/copy/copyrows/copycols (with out-of-range indices one time in six)/copyrows_opt/copycols_opt/"
                      "copy_filled_matrix/dense round trip/empty_row/empty_col/weight_row, dimensions 1..9 (1xN and Nx1 included), half of the index pairs aimed at existing entries, "
                      "plus sequences that recycle more than a block of entries; state compared after EVERY op; distinct = distinct request lines, all non-trivial")
     c.cov["samples"] = [reqs[0][:300], reqs[len(reqs) // 2][:300]]
